@@ -82,7 +82,7 @@ static bool do_section(const CaseCtx& cx, Curve& c, MState& st, const Spec& s, c
     // diagnosis only: a smooth continuation / turn that fails while gdstk's last_ctrl differs from the
     // model's continuation state is classed "continuation:<class>" (the verdict itself comes from
     // the vertices)
-    bool lc_differs = m.smooth && st.lc_ok && !(dist(toP(c.last_ctrl), st.lc) <= 1e-9L * (1 + norm(st.lc)));
+    bool lc_differs = m.smooth && st.lc_ok && !(dist(toP(c.last_ctrl), st.lc) <= 1e-9L * (cx.scale_floor + norm(st.lc)));
     apply_direct(c, s);
     std::string sub = std::string("section.") + KIND_NAME[s.kind];
     JFields tags = section_tags(s, m, prev);
@@ -440,6 +440,39 @@ static void register_interp_oriented() {
     s.chunk = 64;
     s.run = [rx](int64_t idx, bool verbose) { std::vector<int> d = rx.decode(idx); d[0] = 1 + 2 * d[0]; run_interp_oriented(idx, d, verbose); };
     SUBS.push_back(s);
+}
+
+// ------------------------------------------------------------------ (M) magnitude family for arcs and turns
+// The arc and turn lattices with every length (start point, radii, tolerance) multiplied by 1e-9 and
+// by 1e+9: the absolute magnitude of a layout must not matter.
+static void register_magnitude_sections() {
+    static const double MAGS[2] = {1e-9, 1e9};
+    static const char* MAGN[2] = {"1e-9", "1e9"};
+    const int64_t NT = (int64_t)TOLS.size();
+    add_single_sub("arc_magnitude", "magnitude family: the arc lattice (rx{1,3} x ry/rx{1,1/2,1/20} x span x sign x initial x rotation) with start, radii and tolerance x 1e-9 and x 1e+9", {2, NT, 2, 2, 3, 5, 2, 2, 2}, 40,
+                   [](const std::vector<int>& d, SingleCase& sc) {
+                       static const double RX[2] = {1, 3}, RAT[3] = {1, 0.5, 0.05}, SPAN[5] = {0.2, M_PI / 2, M_PI, 2 * M_PI, 3 * M_PI}, A0[2] = {0, 2.5}, ROT[2] = {0, 0.7};
+                       double m = MAGS[d[0]];
+                       sc.toli = d[1]; sc.start = STARTS[d[2]] * m;
+                       sc.feature_scale = m; sc.tol_abs = TOLS[d[1]] * m; sc.tol_label = TOL_S[d[1]] + "*" + MAGN[d[0]];
+                       Spec& s = sc.spec;
+                       s.kind = ARC;
+                       s.rx = RX[d[3]] * m; s.ry = RX[d[3]] * RAT[d[4]] * m;
+                       s.a0 = A0[d[7]]; s.a1 = s.a0 + (d[6] ? -SPAN[d[5]] : SPAN[d[5]]);
+                       s.rot = ROT[d[8]];
+                       return true;
+                   });
+    add_single_sub("turn_magnitude", "magnitude family: turn after a segment (8 headings) r{1/2,2} x +-{0.3,pi/2,3} with all lengths x 1e-9 and x 1e+9", {2, NT, 2, 8, 2, 6}, 40,
+                   [](const std::vector<int>& d, SingleCase& sc) {
+                       static const double RR[2] = {0.5, 2}, AN[6] = {0.3, M_PI / 2, 3, -0.3, -M_PI / 2, -3};
+                       static const Vec2 PD8[8] = {{-1, 0}, {-1, -2}, {0, -1}, {1, -1}, {2, 0}, {2, 0.2}, {2, -0.2}, {0, 1}};
+                       double m = MAGS[d[0]];
+                       sc.toli = d[1]; sc.start = STARTS[d[2]] * m;
+                       sc.feature_scale = m; sc.tol_abs = TOLS[d[1]] * m; sc.tol_label = TOL_S[d[1]] + "*" + MAGN[d[0]];
+                       sc.has_prefix = true; sc.prefix_from = (STARTS[d[2]] + PD8[d[3]]) * m;
+                       sc.spec.kind = TURN; sc.spec.rx = RR[d[4]] * m; sc.spec.a0 = AN[d[5]];
+                       return true;
+                   });
 }
 
 // ------------------------------------------------------------------ (A') absolute scale of the feature
@@ -811,6 +844,7 @@ int main(int argc, char** argv) {
     register_scaled(run.thorough());
     register_sbends();
     register_interp_oriented();
+    register_magnitude_sections();
     std::stable_sort(SUBS.begin(), SUBS.end(), [](const Sub& a, const Sub& b) { return a.n < b.n; });
 
     if (run.replaying()) {
